@@ -122,19 +122,25 @@ theorem gen_block_data (g : String → Int) (f : Nat) (p : Nat) (hp : p + 8 < 21
   wat_exec
   simp [callRet]
 
-/-- `$heap_assert_align8` traps exactly on values that are not multiples of 8 -/
-theorem gen_assert_align8 (g : String → Int) (f : Nat) (p : Nat) (hp : p < 2147483648) :
-    callFuel funcs g (f + 10) "heap_assert_align8" [(p : Int)] = if p % 8 = 0 then some [] else none := by
+/-- `$heap_assert_align8` returns on multiples of 8 ... -/
+theorem gen_assert_align8_ok (g : String → Int) (f : Nat) (p : Nat) (hp : p < 2147483648) (h : p % 8 = 0) :
+    callFuel funcs g (f + 10) "heap_assert_align8" [(p : Int)] = some [] := by
   simp only [callFuel, find_assert8, Option.bind_some, List.reverse_cons, List.reverse_nil, List.nil_append]
   rw [step_call funcs _ (f + 9) "heap_assert_align8" f_heap_assert_align8 _ find_assert8 (by simp [f_heap_assert_align8])]
   simp only [f_heap_assert_align8]
-  by_cases h : p % 8 = 0
-  · have h' : (p : Int) % 8 = 0 := by omega
-    wat_exec
-    simp [callRet, h, h']
-  · have h' : ¬ (p : Int) % 8 = 0 := by omega
-    wat_exec
-    simp [callRet, h, h']
+  have h' : (p : Int) % 8 = 0 := by omega
+  wat_exec
+  simp [callRet]
+
+/-- ... and traps on every other value -/
+theorem gen_assert_align8_trap (g : String → Int) (f : Nat) (p : Nat) (hp : p < 2147483648) (h : p % 8 ≠ 0) :
+    callFuel funcs g (f + 10) "heap_assert_align8" [(p : Int)] = none := by
+  simp only [callFuel, find_assert8, Option.bind_some, List.reverse_cons, List.reverse_nil, List.nil_append]
+  rw [step_call funcs _ (f + 9) "heap_assert_align8" f_heap_assert_align8 _ find_assert8 (by simp [f_heap_assert_align8])]
+  simp only [f_heap_assert_align8]
+  have h' : ¬ (p : Int) % 8 = 0 := by omega
+  wat_exec
+  simp [callRet]
 
 /-- `$heap_assert_valid_ptr` (first check of `wa_free`) traps on 0 and on pointers that are not multiples of 4 -/
 theorem gen_assert_valid_ptr (g : String → Int) (f : Nat) (p : Nat) (hp : p < 2147483648) :
